@@ -10,6 +10,7 @@ def run(ctx, args):
     # Leg M: the design satisfies the declarative properties on every bounded history / interleaving
     ctx.model_check("MC_Pool", "MC_PoolSeq.cfg", coverage=not q)
     ctx.model_check("MC_Pool", "MC_PoolConc.cfg")
+    ctx.model_check("MC_Pool", "MC_PoolLive.cfg")          # liveness under weak fairness: every started dispatch completes (no state constraint)
     ctx.model_check("MC_Pool", "MC_PoolReach1.cfg", expect_violation="Reach_RaceEmpty")
     ctx.model_check("MC_Pool", "MC_PoolReach2.cfg", expect_violation="Reach_StaleIdx")
     # Leg R: every add/remove/dispatch sequence up to the bound, emitted by TLC
